@@ -40,6 +40,13 @@ CLAIMS = {
    note='Trusted as C01. Outside: serde_json text of flattened/general envelopes (a JSON-escaping defect observed natively is described in DESIGN.md), '
         'JwkDocumentExt::create_jws (async state machine), real signatures.',
    technique=TECH_M, ref='DESIGN.md section 2 C08'),
+ 'C09': dict(
+   text='M over the async state machines: generate_method / purge_method / try_undo_key_generation (CoreDocument and IotaDocument) executed symbolically from their '
+        'initial state with every storage-call result unconstrained - the fault schedule is a set of symbolic variables and every subset of failing calls is a path. '
+        'Success only with method + key + key id in place; every plain error undoes key generation / restores the document and key id; UndoOperationFailed only in '
+        'the documented patterns; rollback completeness against what remove_method_and_scope destroys.',
+   note='Trusted as C01; awaited futures complete on first poll (no interleaving inside join!). Outside: real stores (C15), non-storage failures, insert/remove_method themselves (C04).',
+   technique='MIR-to-SMT symbolic execution of the compiled async state machines (fault schedule as symbolic callee outcomes, z3 path feasibility)', ref='DESIGN.md section 2 C09'),
  'C10': dict(
    text='M kernels: the five DID character classes equal the W3C/RFC 3986 ABNF sets for every Unicode scalar value; M audit: every constructor of the plain DID type '
         'passes check_validity, DID-URL split validates and clears parts, join/setters validate before mutating; K (thorough): local validators on 3 symbolic bytes.',
